@@ -87,7 +87,8 @@ EnvFrom(ps, i, off, src, cls, mayIdx) ==   \* off = number of source bytes befor
                   ELSE <<>>
        IN own \o EnvFrom(ps, i + 1, off + Len(p.s), src, cls, mayIdx)
 EnvWith(ps, src, cls, may) == EnvFrom(ps, 1, 0, src, cls, may)
-Envelope(ps) == LET src == Src(ps) cls == Cls(ps) may == MayIdx(src, cls) IN EnvWith(ps, src, cls, may)
+EnvelopeX(ps, src, cls) == LET may == MayIdx(src, cls) IN EnvWith(ps, src, cls, may)
+Envelope(ps) == LET src == Src(ps) cls == Cls(ps) IN EnvelopeX(ps, src, cls)
 
 \* membership: out is obtained from the envelope by deleting some MAY bytes and nothing else.
 \* R = set of positions j such that out[1..j-1] can be produced by env[1..i-1]   (polynomial DP)
@@ -99,7 +100,8 @@ Reach(env, out, i, R) ==
            R2 == IF e[2] = 1 THEN adv \cup R ELSE adv
        IN Reach(env, out, i + 1, R2)
 Member(env, out) == (Len(out) + 1) \in Reach(env, out, 1, {1})
-InEnvelope(ps, out) == LET env == Envelope(ps) IN Member(env, out)
+InEnvelopeX(ps, src, cls, out) == LET env == EnvelopeX(ps, src, cls) IN Member(env, out)
+InEnvelope(ps, out) == LET src == Src(ps) cls == Cls(ps) IN InEnvelopeX(ps, src, cls, out)
 
 (* ---- which (pieces, format) the reference has an opinion about; anything else is ref_undefined ---- *)
 Kinds == {"text", "show", "render", "stmt", "comment", "raw", "shebang"}
@@ -125,28 +127,40 @@ WellFormedPieces(ps) ==
 \* a constant string is shown as itself only where the format has no quoting of its own
 PlainFmts == {"txt", "html", "md"}
 ShowOk(ps, fmt) == \A i \in DOMAIN ps : (ps[i].k = "show" /\ \E x \in DOMAIN ps[i].v : ~IsDigit(ps[i].v[x])) => fmt \in PlainFmts
-StructDefined(ps) == WellFormedPieces(ps) /\ Balanced(ps) /\ LET src == Src(ps) cls == Cls(ps) IN NoAccidentalSyntax(src, cls)
+StructDefinedX(ps, src, cls) == WellFormedPieces(ps) /\ Balanced(ps) /\ NoAccidentalSyntax(src, cls)
+StructDefined(ps) == LET src == Src(ps) cls == Cls(ps) IN StructDefinedX(ps, src, cls)
+DefinedX(ps, src, cls, fmt) == StructDefinedX(ps, src, cls) /\ ShowOk(ps, fmt)
 Defined(ps, fmt) == StructDefined(ps) /\ ShowOk(ps, fmt)
 
 (* root-cause signature of a record outside the envelope (computed from reference quantities only) *)
-RECURSIVE LastLineStart(_, _)
-LastLineStart(src, k) == IF k <= 1 THEN 1 ELSE IF src[k - 1] = NLc THEN k ELSE LastLineStart(src, k - 1)
-RECURSIVE LeadingText(_, _, _)
-LeadingText(src, cls, k) == IF k > Len(src) \/ cls[k] \notin {cT, cR} THEN {} ELSE {k} \cup LeadingText(src, cls, k + 1)
-\* white-space text bytes of the last physical line that precede its first non-text byte
-LastLineLeading(src, cls) == IF Len(src) = 0 THEN {}
-                             ELSE {k \in LeadingText(src, cls, LastLineStart(src, Len(src))) : src[k] \in WS}
+LineStartSet(src) == IF Len(src) = 0 THEN {} ELSE {1} \cup {k + 1 : k \in {x \in 1..(Len(src) - 1) : src[x] = NLc}}
+RECURSIVE LeadRun(_, _, _)    \* the white-space text bytes at the start of the line beginning at index k
+LeadRun(src, cls, k) == IF k > Len(src) \/ cls[k] \notin {cT, cR} \/ src[k] \notin {32, 9, 13} THEN {}
+                        ELSE {k} \cup LeadRun(src, cls, k + 1)
+RECURSIVE LineEnd(_, _)       \* index of the last byte of the line containing k, its LF excluded
+LineEnd(src, k) == IF k > Len(src) THEN Len(src) ELSE IF src[k] = NLc THEN k - 1 ELSE LineEnd(src, k + 1)
+RECURSIVE PieceAt(_, _, _, _) \* index of the piece holding source byte e
+PieceAt(ps, i, off, e) == IF i > Len(ps) THEN 0 ELSE IF e <= off + Len(ps[i].s) THEN i ELSE PieceAt(ps, i + 1, off + Len(ps[i].s), e)
+CloserKind(ps, src, s) == LET e == LineEnd(src, s) pi == PieceAt(ps, 1, 0, e) IN IF e < s \/ pi = 0 THEN "none" ELSE ps[pi].k
+LastKind(ps) == IF Len(ps) = 0 THEN "none" ELSE ps[Len(ps)].k
+\* <<cause, detail>>
 Cause(ps, out) ==
   LET src == Src(ps) cls == Cls(ps) may == MayIdx(src, cls)
       text == {k \in DOMAIN src : cls[k] \in {cT, cR}}
-      e1 == EnvWith(ps, src, cls, may \cup LastLineLeading(src, cls))
+      starts == LineStartSet(src)
+      lead == UNION {LeadRun(src, cls, s) : s \in starts}
+      e1 == EnvWith(ps, src, cls, may \cup lead)
       e2 == EnvWith(ps, src, cls, may \cup {k \in text : src[k] \in WS})
       e3 == EnvWith(ps, src, cls, text)
-  IN IF Member(e1, out) THEN "leading-space-of-last-line-with-content-removed"
-     ELSE IF Member(e2, out) THEN "space-of-line-with-content-removed"
-     ELSE IF Member(e3, out) THEN "text-removed"
-     ELSE "text-changed-or-added"
-LastKind(ps) == IF Len(ps) = 0 THEN "none" ELSE ps[Len(ps)].k
+      \* the lines whose leading space must have been dropped to explain out
+      needed == {s \in starts : LeadRun(src, cls, s) # {} /\
+                     LET e == EnvWith(ps, src, cls, may \cup (lead \ LeadRun(src, cls, s))) IN ~Member(e, out)}
+  IN IF Member(e1, out)
+     THEN <<"leading-space-of-line-with-content-removed",
+            IF \A s \in needed : CloserKind(ps, src, s) = "comment" THEN "line-closed-by-comment" ELSE "line-closed-by-other">>
+     ELSE IF Member(e2, out) THEN <<"space-of-line-with-content-removed", LastKind(ps)>>
+     ELSE IF Member(e3, out) THEN <<"text-removed", LastKind(ps)>>
+     ELSE <<"text-changed-or-added", LastKind(ps)>>
 
 (* =====================================================================================
    PART 2 - implementation-shaped model
